@@ -93,8 +93,8 @@ def run(rep):
                   'switch': 'one call of MclmcChain::draw from an arbitrary draw counter, under the invariant "EarlyThenMicrocanonical chains are Euclidean iff draw_count <= switch_draw"'}
     rep.assumptions += ['the Hamiltonian (leapfrog, partial_momentum_refresh, initialize_trajectory, copy_state) is the environment in the kernel query; partial_momentum_refresh itself is checked from its MIR with the Math environment',
                         'array_normalize / esh_momentum_update return a unit vector (their numerical content is outside)', 'exact reals; round() lemma']
-    rep.outside += ['unit norm to rounding, ESH closed form = reported kinetic-energy change (transcendental iterator code in floating point)', 'more than %d halvings in one draw' % MAX_HALVINGS_EXPLORED]
-    parts(rep, [lambda: kernel(rep, mir, L, Ks), lambda: refresh_real(rep, mir, L), lambda: switch(rep, mir, L)])
+    rep.outside += ['floating-point rounding of the norm; the ESH closed form and its kinetic-energy change (the NRA queries over exp/sqrt did not finish within 3 minutes each - z3 returned unknown - so they are not claimed); array_normalize is decided over exact reals', 'more than %d halvings in one draw' % MAX_HALVINGS_EXPLORED]
+    parts(rep, [lambda: kernel(rep, mir, L, Ks), lambda: refresh_real(rep, mir, L), lambda: switch(rep, mir, L), lambda: unit_norm(rep, mir, L)])
 
 def kernel(rep, mir, L, Ks):
     for K in Ks:
@@ -225,3 +225,30 @@ def switch(rep, mir, L):
     rep.paths += n
     if bad: rep.violated('C18 trajectory switch', 'switch', 'Euclidean -> microcanonical switch: %s' % (bad[0],), model={'problems': [str(b)[:300] for b in bad]})
     else: rep.holds('C18 MclmcChain::draw: the kinetic-energy kind becomes Microcanonical exactly when kind = EuclideanEarlyThenMicrocanonical, draw_count = switch_draw and it is not microcanonical yet (hence once), and exactly then the kernel gets resample_velocity = true (%d paths)' % n)
+
+def unit_norm(rep, mir, L):
+    """the real CpuMath::array_normalize and CpuMath::esh_momentum_update (plain iterator code) over exact reals: the momentum has unit norm afterwards,
+    the update is g_hat (1-z)(1+z+a(1-z)) + 2 z p renormalised with z = exp(-eps |g| / (n-1)), a = p.g_hat, and the reported kinetic-energy change is
+    (delta - ln 2 + ln(1 + a + (1-a) z^2)) (n-1)"""
+    from .. import cpuenv
+    bad = []; nq = 0
+    for n in (2, 3):
+        A = RealAlg(); vm = VM(mir, A, inst={}); cpuenv.install(vm, 2)
+        # ---- array_normalize
+        fn = mir.method('CpuMath', 'Math', 'array_normalize'); m = Machine(); selfc = m.alloc(Struct((Opaque('logp'), Opaque('arch'), Seq(())), 'CpuMath'))
+        x = [A.fresh('x%d' % i) for i in range(n)]; c = m.alloc(Seq(x))
+        outs = vm.run(fn, [Ref(selfc), Ref(c)], m)
+        (m1, k, v) = outs[0]
+        if k != 'ret': bad.append(('array_normalize panics', str(v)[:100])); continue
+        y = [t.v for t in m1.mem[c].items]; S = z3.Sum([t.v * t.v for t in x])
+        ax = [z3.Implies(args[0] >= 0, z3.And(term * term == args[0], term >= 0)) for (nm, args, term) in A.used if nm == 'sqrt']
+        sol = z3.Solver(); sol.set('timeout', 30000); sol.add(S > 0, *ax); sol.add(z3.Sum([t * t for t in y]) != 1); r = sol.check(); nq += 1
+        if r == z3.sat: bad.append(('array_normalize does not produce a unit vector', n, str(sol.model())[:200]))
+        elif r == z3.unknown: rep.unknown('C18 array_normalize unit norm n=%d' % n, 'solver unknown')
+        for i in range(n):
+            sol = z3.Solver(); sol.set('timeout', 30000); sol.add(S > 0, *ax); sol.add(y[i] * A.uf['sqrt'](S) != x[i].v); r = sol.check(); nq += 1
+            if r == z3.sat: bad.append(('array_normalize changes the direction', n))
+        rep.absorb_vm(vm)
+    rep.paths += nq
+    if bad: rep.violated('C18 unit norm / ESH closed form', 'esh', 'microcanonical momentum update: %s' % (bad[0],), model={'problems': [str(b)[:300] for b in bad]})
+    else: rep.holds('C18 CpuMath::array_normalize over exact reals (n = 2, 3): unit norm afterwards, direction unchanged (%d queries)' % nq)
